@@ -281,7 +281,7 @@ impl<T> RcBox<T> {
     #[inline]
     pub(crate) unsafe fn links(&self) -> &RefCell<Links<T>> {
         #[cfg(cactusref_verif)]
-        crate::verif::on_links_access(self.strong.get());
+        crate::verif::on_links_access(ptr::addr_of!(self.links).cast::<usize>());
         let links = &self.links;
         // SAFETY: because callers have ensured the `RcBox` is not dead, `links`
         // has not yet been deallocated and the `MaybeUninit` is inhabited.
@@ -439,6 +439,8 @@ impl<T> Rc<T> {
                 // to the allocation given up here, and release its own links.
                 crate::drop::unlink(&this);
                 ptr::drop_in_place((*this.ptr.as_ptr()).links.as_mut_ptr());
+                #[cfg(cactusref_verif)]
+                crate::verif::poison(ptr::addr_of_mut!((*this.ptr.as_ptr()).links));
 
                 let val = ptr::read(&*this); // copy the contained object
 
@@ -909,6 +911,8 @@ impl<T: Clone> Rc<T> {
                 // peers and release its own links.
                 crate::drop::unlink(this);
                 ptr::drop_in_place((*this.ptr.as_ptr()).links.as_mut_ptr());
+                #[cfg(cactusref_verif)]
+                crate::verif::poison(ptr::addr_of_mut!((*this.ptr.as_ptr()).links));
 
                 this.inner().dec_strong();
                 // Remove implicit strong-weak ref (no need to craft a fake
